@@ -272,7 +272,7 @@ def batch(arg):
             out["viol"].append({"mech": mech, "what": what, "files": files, "rule": rule, "lines": lines, "case": i, "expect_accept": exp})
         if not out["samples"] and negative:
             out["samples"].append({"case": i, "rule": rule, "line": files["m.emb"].split("\n")[lines[0] - 1]})
-    out["viol"] = out["viol"][:60]
+    out["viol"] = common.cap_by_mech(out["viol"])
     return out
 
 
